@@ -133,6 +133,11 @@ fn late_writers() -> Vec<(Vec<Node>, Vec<PartialDef>)> {
         v.push((vec![Node::TableRow { x: "j".into(), rng: arr3.clone(), cols: Some(lit_i(2)), limit: None, offset: None, body: vec![f(vec![out(var("i")), intr.clone()]), text("c")] }, text("end")], vec![]));
         v.push((vec![f(vec![Node::Render(lit_s("loop"), RForm::For(arr3.clone(), "k".into()), vec![]), text("/")]), text("end")], vec![("loop".into(), Ok(vec![out(var("k")), intr.clone(), text("never")]))]));
     }
+    // both spellings of a partial exist: a failure inside `card` must surface, not fall back to `card.liquid`
+    v.push((vec![text("a"), Node::Render(lit_s("card"), RForm::Plain, vec![("t".into(), lit_s("q"))]), text("b")],
+            vec![("card".into(), Ok(vec![text("<"), out(var("t")), text("|"), out(var("t")), text(">")])), ("card.liquid".into(), Ok(vec![text("["), out(var("t")), text("]")]))]));
+    v.push((vec![Node::Render(lit_s("card"), RForm::For(RangeE::Counted(lit_i(1), lit_i(2)), "t".into()), vec![]), text("b")],
+            vec![("card".into(), Ok(vec![text("<"), out(var("t")), text(">")])), ("card.liquid".into(), Ok(vec![text("["), out(var("t")), text("]")]))]));
     // a trailing partial row: `</tr>` is written once more after the last cell
     v.push((vec![Node::TableRow { x: "j".into(), rng: arr3.clone(), cols: Some(lit_i(2)), limit: None, offset: None, body: vec![out(var("j"))] }, text(" tail")], vec![]));
     v
